@@ -255,7 +255,7 @@ def run(ctx):
     if ctx.thorough:
         plan = [
             (("C", "C"), (), 1, False, "all"), (("C", "I"), (), 1, False, "all"), (("I", "C"), (), 1, False, "all"), (("I", "I"), (), 1, False, "all"),
-            (("C", "C"), ("C",), 1, False, "all"), (("C", "I"), ("I",), 1, False, "all"), (("C", "I"), ("C",), 1, False, "all"),
+            (("C", "C"), ("C",), 1, False, "all"), (("C", "I"), ("I",), 1, False, "all"), (("C", "I"), ("C",), 1, False, "all"), (("I", "I"), ("I",), 1, False, "eval"),
             (("C", "C"), ("C",), 2, False, "eval"),
             (("C", "C", "I"), (), 1, False, "eval"), (("C", "C", "C"), ("C",), 1, False, "eval"),
             (("C", "C"), ("C",), 1, True, "eval"),
@@ -263,8 +263,7 @@ def run(ctx):
     else:
         plan = [
             (("C", "C"), (), 1, False, "all"),
-            (("C", "I"), (), 1, False, "eval"), (("I", "C"), (), 1, False, "eval"), (("I", "I"), (), 1, False, "eval"),
-            (("C", "C"), ("C",), 1, False, "eval"), (("C", "I"), ("I",), 1, False, "eval"),
+            (("C", "I"), (), 1, False, "eval"),
             (("C", "C", "I"), (), 0, False, "all"),
         ]
     # solo references: fresh fork, cross-checked against a fresh python subprocess
